@@ -79,7 +79,26 @@ fn from_recipe(fmt: Fmt, r: &Recipe) -> (u64, i32, bool, &'static str, bool) {
         Fmt::F32 => &hard_table().f32,
         Fmt::F64 => &hard_table().f64,
     };
-    match pick_w(r.sel[0], &[40, 12, 12, 18, 10, 8]) {
+    match pick_w(r.sel[0], &[40, 12, 12, 18, 10, 8, 8]) {
+        6 => {
+            // interior points of the rounding interval of special floats (G-I): the stage decides these on its own
+            let c = gen::g_i(fmt, r, r.sel[5] % 2 == 0);
+            let mut digits: Vec<u8> = c.int.iter().chain(c.frac.iter()).copied().collect();
+            let mut q = c.exp as i64 - c.frac.len() as i64;
+            let lz = digits.iter().take_while(|&&b| b == b'0').count();
+            digits.drain(..lz);
+            let mut trunc = false;
+            if digits.len() > 19 {
+                q += digits.len() as i64 - 19;
+                digits.truncate(19);
+                trunc = true;
+            }
+            let w = std::str::from_utf8(&digits).ok().and_then(|s| s.parse::<u64>().ok());
+            match w {
+                Some(w) if w > 0 && q.abs() < 100_000 => (w, q as i32, trunc, "interior-point", true),
+                _ => (cap(r.a), (r.b % 800) as i32 - 400, t, "uniform", false),
+            }
+        }
         0 => {
             let h: Hard = tab[((r.a as u128 * tab.len() as u128) >> 64) as usize];
             let delta = [0i64, 0, 1, -1, 2, -2, 3, -3][(r.k[0] % 8) as usize];
